@@ -367,8 +367,9 @@ pub struct MsgStats {
 
 // ------------------------------------------------------------------------------- C11
 
-/// At quiescence: the last publish per URI equals the diagnostics of the final state; versions
-/// per URI never decrease.
+/// At quiescence: the last publish per URI equals the diagnostics of the final state (ranges,
+/// through the independent mapper, and messages, as a multiset); versions per URI never
+/// decrease.
 pub fn check_c11(model: &Model, res: &ExecResult, stats: &mut MsgStats) -> Vec<Violation> {
     let mut v = Vec::new();
     let pubs = publishes(res);
@@ -381,7 +382,7 @@ pub fn check_c11(model: &Model, res: &ExecResult, stats: &mut MsgStats) -> Vec<V
                 v.push(Violation::new("C11", "version-decreased", format!("{path}: version {ver} published after {prev}")));
             }
         }
-        let got = project_publish(diags, false);
+        let got = project_publish(diags, true);
         if !got.is_empty() {
             ever_nonempty.insert(path.clone());
         }
@@ -389,7 +390,7 @@ pub fn check_c11(model: &Model, res: &ExecResult, stats: &mut MsgStats) -> Vec<V
     }
     let final_state = model.states.len() - 1;
     let Some(host) = model.states[final_state].fresh_host() else { return v };
-    let expected = host.diagnostics(false);
+    let expected = host.diagnostics(true);
     let uris: BTreeSet<&String> = last.keys().chain(expected.keys()).collect();
     for uri in uris {
         let exp = expected.get(uri).cloned().unwrap_or_default();
